@@ -213,6 +213,9 @@ class Kernel:
         self.deadlock_info = None
         self.trace_files = None
         self.preempt_at = None
+        self.trace_funcs = None
+        self.trace_prob = 0.0
+        self.trace_stall_prob = 0.5
         self._pct_points = []
         import random as _random
         self.urng = _random.Random(cfg.get('useed', 0))
@@ -618,10 +621,37 @@ class Kernel:
         self.preempt_at = list(points)
         self._lines = 0
 
+    def enable_func_preemption(self, files, funcs, prob, stall_prob=0.5):
+        """Every line of the named functions (of the named files) is a pre-emption point with probability
+        `prob` (one scheduler decision each): a thread can lose the processor between any two lines, and these
+        are the functions whose windows between system calls matter."""
+        self.trace_files = tuple(files)
+        self.preempt_at = self.preempt_at or []
+        self._lines = getattr(self, '_lines', 0)
+        self.trace_funcs = frozenset(funcs)
+        self.trace_prob = prob
+        self.trace_stall_prob = stall_prob
+
     def _tracer(self, frame, event, arg):
         if frame.f_code.co_filename.endswith(self.trace_files):
+            if self.trace_funcs is not None:
+                return self._func_tracer if frame.f_code.co_name in self.trace_funcs else None
             return self._line_tracer
         return None
+
+    def _func_tracer(self, frame, event, arg):
+        if event == 'line':
+            a = self.by_ident.get(_real_get_ident())
+            if a is not None and not a.proc.dead and not self.aborting and not a.nosig and a.in_handler == 0:
+                if self.chance(self.trace_prob, 'line?'):
+                    self.probe('line_preempt')
+                    if self.chance(self.trace_stall_prob, 'line-stall?'):
+                        # descheduled for a moment: everybody else runs until they block (the clock moves on
+                        # only when nobody else is runnable)
+                        self.stall(a, 0.0005)
+                        self.record('line-stall', frame.f_code.co_name, frame.f_lineno - frame.f_code.co_firstlineno)
+                    self.enter('line:%s:%d' % (frame.f_code.co_name, frame.f_lineno - frame.f_code.co_firstlineno))
+        return self._func_tracer
 
     def _line_tracer(self, frame, event, arg):
         if event == 'line':
